@@ -7,11 +7,12 @@ func init() {
 		Harnesses: []*HarnessSpec{
 			{Name: "H_C05_main", Tier: "quick", What: "flat(l2sq,d=1) + BM25 + metadata; 3 documents with different modality subsets (symbolic vectors, symbolic integer metadata); query = any combination of vector / text (matching / matching nothing) / filter (matching some / nothing / symbolic integer bound); 4 fusion kinds with symbolic finite weights and K>0; k any int >= 1. Oracle by composition with the sub-index public APIs: candidate set, per-modality top-k inside it, fusion branch, descending order, truncation", Covers: []string{"fused", "vector-only", "text-only", "metadata-only", "filter-matches-nothing", "query-matches-nothing"}},
 			{Name: "H_C05_options", Tier: "quick", What: "options the hybrid search hands through, one family at a time, 3 documents with symbolic vectors and integer metadata, k any int >= 1: WithMetadataGroups alone and next to WithMetadata, WithFusionKind (4 kinds, default configuration), WithThreshold (any non-NaN float32), two text queries under sum / max / mean aggregation, WithCutoff in {-1,0,1,2}; same oracle by composition (the sub-searches get the same options)", Covers: []string{"ran", "fused", "vector-only", "text-only", "filter-matches-nothing"}},
+			{Name: "H_C05_passthrough", Tier: "quick", What: "an approximate vector index under the hybrid — IVF (2 clusters) with WithNProbes in {0,1,2,5,-1} and HNSW with WithEfSearch / SetEfSearch — 4 documents, 3 queries, with / without filter and text, k any int >= 1: the vector candidates are what that index returns for the same setting inside the filtered set (oracle by composition)", Covers: []string{"ran"}},
 			{Name: "H_C05_config", Tier: "quick", What: "all 8 combinations of configured sub-indexes x query part: unconfigured modality is an error; metadata-only score is 1", Covers: []string{"configured", "unconfigured"}},
 		},
 		ModelDiff:   true,
 		Bounds:      []string{"3 documents, dimension 1, exact (flat) vector index", "k >= 1 over all of int; fusion weights finite float64, K>0"},
-		Outside:     []string{"approximate vector indexes under the hybrid (nprobes / efSearch pass-through)", "k <= 0 (outside the property's quantifier)", "NaN fused scores"},
+		Outside:     []string{"k <= 0 (outside the property's quantifier)", "NaN fused scores"},
 		Assumptions: append([]string{"sub-index answers are taken from the sub-indexes' own public searches (their correctness is C01 / C03 / C04); Fusion.Combine's formulas are C19's"}, metaAssumptions...),
 		QuickSecs:   900,
 		LevelNote:   idxNote,
